@@ -436,6 +436,8 @@ def _map_const_op(a: Any, b: Any, op: Any) -> Any:
     return None
 
 
+POW2 = z3.Function("py_pow2", z3.IntSort(), z3.IntSort())
+SHR = z3.Function("py_shr", z3.IntSort(), z3.IntSort(), z3.IntSort())
 _BITAND = z3.Function("py_bitand", z3.IntSort(), z3.IntSort(), z3.IntSort())
 _BITOR = z3.Function("py_bitor", z3.IntSort(), z3.IntSort(), z3.IntSort())
 _BITXOR = z3.Function("py_bitxor", z3.IntSort(), z3.IntSort(), z3.IntSort())
